@@ -11,11 +11,12 @@ import Driver.OpsProject
 import Driver.OpsFS
 import Driver.OpsApi
 import Driver.OpsGridFS
+import Driver.OpsSpec
 open Lean
 namespace Driver
 
 def allOps : List (String × Op) :=
-  opsCompare ++ opsMatch ++ opsApply ++ opsCodec ++ opsProject ++ opsFS ++ opsGridFS
+  opsCompare ++ opsMatch ++ opsApply ++ opsCodec ++ opsProject ++ opsFS ++ opsGridFS ++ opsSpec
 
 def handle (st : DState) (line : String) : DState × Json :=
   match Json.parse line with
